@@ -139,7 +139,18 @@ def run(ctx):
             x.get('k') == 'var' and 'EdgeResult' in (x.get('ty') or '') for x in walk(a)), None,
             'delayed edges are retrieved whatever the result', construct='RetrieveReadyEdges:guarded-by-result',
             forbidden=True)
-    ctx.floor('C06.R1', 12)
+    # ... and for every such edge: the slot accounting of Plan::ScheduleWork (EdgeScheduled for whatever it admits,
+    # phony or not) is undone for every finished edge that was wanted, and the delayed edges of the pool are looked at
+    # after every finished edge - no other condition (edge kind, result) stands between
+    must_pass(ctx, 'C06.R1', pef, lambda x: x['k'] == 'call' and x.get('name') == 'Pool::EdgeFinished',
+              lambda x: x['k'] in ('ret', 'exit'),
+              'every finished edge that was wanted gives its pool slot back', 'Pool::EdgeFinished:skipped',
+              edge_ok=lambda b, i, s: not any((pol is True and mentions_enum(a, 'Plan::kWantNothing') and strip(a).get('k') == 'bin' and strip(a).get('op') == '==')
+                                              for k, pol, a in pef.edge_facts(b, i)))
+    must_pass(ctx, 'C06.R1', pef, lambda x: x['k'] == 'call' and x.get('name') == 'Pool::RetrieveReadyEdges',
+              lambda x: x['k'] in ('ret', 'exit'),
+              'after every finished edge the delayed edges of its pool are retrieved', 'RetrieveReadyEdges:skipped')
+    ctx.floor('C06.R1', 14)
     ctx.table('C06.R1.writers', allowed)
 
     # ---- G1: admission typestate ------------------------------------------------------------------
